@@ -46,6 +46,12 @@ CONSTANTS Kinds,        \* subset of {"action", "workflow", "popular"}
           Skips         \* BOOLEAN: skip_inputs / skip_outputs are tried (bundled table only)
 
 AllReqs == {"absent", "true", "false"}
+(* Spellings of `required:` in on.workflow_call (inputs and secrets).  A workflow file is YAML 1.2 core
+   schema: only true / True / TRUE are the boolean true.  yes, on, y are plain strings, 'true' is a
+   quoted string, 1 is an integer ("qtrue", "one" name the last two); go-yaml would still decode
+   yes / on / y into a Go bool (YAML 1.1 compatibility).  Required iff the boolean true. *)
+WfReqs == {"absent", "true", "True", "TRUE", "false", "False", "yes", "on", "y", "qtrue", "one"}
+ReqTrue(req) == req \in {"true", "True", "TRUE"}
 AllDefs == {"absent", "null", "empty", "value"}
 
 SpellTab == [in1 |-> [lower |-> "in1", upper |-> "IN1", mixed |-> "In1"],
@@ -81,13 +87,13 @@ D(class, name) == [class |-> class, name |-> name]
    The derivations of "required" are therefore asserted equal WITHIN a kind only: local action.yml vs
    decoding for the bundled table; reusable workflow from the file vs from the in-memory AST. *)
 HasDefault(kind, def) == IF kind = "workflow" THEN def # "absent" ELSE def \in {"empty", "value"}
-Mandatory(kind, in) == in.req = "true" /\ ~HasDefault(kind, in.def)
+Mandatory(kind, in) == ReqTrue(in.req) /\ ~HasDefault(kind, in.def)
 
 Iface(d) ==
   [kind |-> d.kind, repo |-> "", using |-> d.using,
-   inputs |-> [i \in DOMAIN d.inputs |-> [n |-> d.inputs[i].n, required |-> d.inputs[i].req = "true",
+   inputs |-> [i \in DOMAIN d.inputs |-> [n |-> d.inputs[i].n, required |-> ReqTrue(d.inputs[i].req),
                                           hasDefault |-> HasDefault(d.kind, d.inputs[i].def), type |-> d.inputs[i].type]],
-   secrets |-> [i \in DOMAIN d.secrets |-> [n |-> d.secrets[i].n, required |-> d.secrets[i].req = "true"]],
+   secrets |-> [i \in DOMAIN d.secrets |-> [n |-> d.secrets[i].n, required |-> ReqTrue(d.secrets[i].req)]],
    outputs |-> d.outputs, skipInputs |-> d.skipInputs, skipOutputs |-> d.skipOutputs]
 
 (* Values given to inputs.  A literal value kind is named "<style>:<class>": the YAML scalar style
@@ -181,22 +187,31 @@ ReqBundled(in) == ReqLocalAction(in)
 \* reusable_workflow.go:50  input.Required = yamlNodeIsTrue(&md.Required) && md.Default.Kind == 0
 \* (a yaml.Node field stays zero only when the key is missing; before fix 12e35db this was
 \* md.Required && md.Default == nil with Default *string, i.e. YamlBool /\ YamlStrPtrNil)
-YamlNodeIsTrue(req) == req = "true"              \* scalar that decodes into bool true; "expr" does not
+\* go-yaml: the resolved tag of the scalar, and whether Decode(&bool) succeeds with true
+YamlTag(req) == CASE req \in {"true", "True", "TRUE", "false", "False"} -> "!!bool"
+                  [] req = "one" -> "!!int"
+                  [] OTHER -> "!!str"          \* yes, on, y, 'true', ${{ }}
+YamlDecodesTrue(req) == req \in {"true", "True", "TRUE", "yes", "on", "y"}
+\* reusable_workflow.go:107 yamlNodeIsTrue (since 8258f91): n.ShortTag() == "!!bool" && n.Decode(&b) == nil && b
+YamlNodeIsTrue(req) == req # "absent" /\ YamlTag(req) = "!!bool" /\ YamlDecodesTrue(req)
 YamlNodeMissing(def) == def = "absent"
 ReqWorkflowFile(in) == YamlNodeIsTrue(in.req) /\ YamlNodeMissing(in.def)
 \* parse.go:485 parseBool: *Bool (nil when the key is missing), Value = (text = "true")
-AstReqNil(req) == req = "absent"
-AstReqValue(req) == req = "true"
+\* parse.go:172 parseBool: nil (and an error in the callee) unless the tag is !!bool or !!str; a !!str
+\* node is kept as an expression with Value false; a !!bool node is decoded (true, True, TRUE)
+AstReqNil(req) == req = "absent" \/ YamlTag(req) \notin {"!!bool", "!!str"}
+AstReqValue(req) == YamlTag(req) = "!!bool" /\ YamlDecodesTrue(req)
 \* parse.go:487 parseString returns a *String for every scalar node, the null scalar included
 AstDefaultNil(def) == def = "absent"
 \* reusable_workflow.go:297  i.Required != nil && i.Required.Value && i.Default == nil
 ReqWorkflowAST(in) == ~AstReqNil(in.req) /\ AstReqValue(in.req) /\ AstDefaultNil(in.def)
 
-AllInDecls == {[n |-> Nm("in1", "lower"), req |-> r, def |-> df, type |-> "string"] : r \in AllReqs, df \in AllDefs}
+AllInDecls == {[n |-> Nm("in1", "lower"), req |-> r, def |-> df, type |-> "string"] : r \in WfReqs \cup {"expr"}, df \in AllDefs}
 DerivRow(in) == [req |-> in.req, def |-> in.def,
                  actionMandatory |-> Mandatory("action", in), bundled |-> ReqBundled(in), action |-> ReqLocalAction(in),
                  workflowMandatory |-> Mandatory("workflow", in), file |-> ReqWorkflowFile(in), ast |-> ReqWorkflowAST(in)]
-RowAgrees(r) == /\ r.bundled = r.actionMandatory /\ r.action = r.actionMandatory
+\* action.yml is judged on required in {absent, true, false}; on.workflow_call on every spelling
+RowAgrees(r) == /\ r.req \in AllReqs => (r.bundled = r.actionMandatory /\ r.action = r.actionMandatory)
                 /\ r.file = r.workflowMandatory /\ r.ast = r.workflowMandatory
 Deviating == {r \in {DerivRow(in) : in \in AllInDecls} : ~RowAgrees(r)}
 \* the module's claim: within a kind the derivations agree with each other and with the property on
@@ -204,7 +219,8 @@ Deviating == {r \in {DerivRow(in) : in \in AllInDecls} : ~RowAgrees(r)}
 DerivationsOK == Deviating = {}
 DeviatingJson == ToJson(Deviating)
 \* secrets: yamlNodeIsTrue (file) vs s.Required != nil && s.Required.Value (AST)
-SecretDerivationsOK == \A r \in AllReqs : YamlNodeIsTrue(r) = (~AstReqNil(r) /\ AstReqValue(r)) /\ YamlNodeIsTrue(r) = (r = "true")
+SecretDerivationsOK == \A r \in WfReqs \cup {"expr"} : /\ YamlNodeIsTrue(r) = (~AstReqNil(r) /\ AstReqValue(r))
+                                                        /\ YamlNodeIsTrue(r) = ReqTrue(r)
 
 ----------------------------------------------------------------------------
 (* Operational layer: metadata and checks *)
